@@ -899,3 +899,24 @@ func gzipBytes(b []byte) []byte {
 	zw.Close()
 	return out.Bytes()
 }
+
+// stagedMembers lists the objects inside a staging bundle.
+func stagedMembers(bundle []byte) map[string][]byte {
+	raw, err := gunzip(bundle)
+	if err != nil {
+		return nil
+	}
+	out := map[string][]byte{}
+	tr := tar.NewReader(bytes.NewReader(raw))
+	for {
+		h, err := tr.Next()
+		if err != nil {
+			return out
+		}
+		b, err := io.ReadAll(tr)
+		if err != nil {
+			return out
+		}
+		out[h.Name] = b
+	}
+}
